@@ -57,9 +57,17 @@ def main(argv):
                 run.hist("outcomes", "%s%s" % (r.get("r"), (":" + r.get("e", "")) if r.get("r") == "err" else ""))
                 rep = {"pdl": d["text"], "type": T, "op": "decfull", "input_hex": s.hex(), "kind": kind, "impl": r,
                        "model": mr, "reference": mi}
-                if r.get("r") not in ("ok", "err"):
-                    continue    # panics are C01's business
                 hz = mr.get("h") if mr.get("r") == "panic" else None
+                if r.get("r") not in ("ok", "err"):
+                    # a panic / abort is neither acceptance nor a DecodeError.  Where the model of the emitted
+                    # code predicts the panic it is one of the recorded decoder hazards (KF-C01-*, reported by
+                    # C01); anywhere else it is a fresh violation of this property too
+                    if hz is None:
+                        rep["signature"] = {"class": str(r.get("r")), "hazard": None}
+                        run.violation("impl", "%s::decode_full(%s) -> %s %s where the reference %s" %
+                                      (T, s.hex()[:40], r.get("r"), str(r.get("m"))[:100],
+                                       "accepts" if mi.get("r") == "ok" else "rejects with %s" % mi.get("e")), rep)
+                    continue
                 # (a) against the reference
                 ref_ok = mi.get("r") == "ok"
                 if (r["r"] == "ok") != ref_ok:
